@@ -23,6 +23,46 @@ CHECKS = {
     ),
 }
 
+EDIT_NOTE = TRUST + ("spec/SMGEdit.tla (Outcomes) is the reference meaning of every public operation; behaviour no property pins is an "
+                     "explicit set of allowed outcomes (DESIGN appendix A); universes are bounded (3-4 ids, 2 elements, fixed descriptor menu) "
+                     "for the exhaustive direction, 10-30 ids / all elements / all classes for the recorded direction.")
+EDIT_TECH = ("TLA+ state machine of all public operations (MC_Edit) explored by TLC, every generated transition replayed on real objects "
+             "with full-view projection; random real histories recorded and validated step by step by TLC (Trace_Edit)")
+CHECKS.update({
+    "C09": dict(category="model_checking",
+        text="TLC explores the bounded state graph of the edit machine for all four classes (profiles E1-E4: every mutator, query and "
+             "ill-formed request at every reachable state up to the depth bound) and every transition is executed on a real object reached "
+             "through a genuine history; after each step all public views are projected, checked against each other and against the spec "
+             "post-state. In the other direction seeded random histories (10-30 ids, all elements, all descriptor classes) are logged call "
+             "by call and each record is validated by TLC against the same Outcomes operator.",
+        design_ref="DESIGN.md 3.3, 4, 6 (C09)", note=EDIT_NOTE, technique=EDIT_TECH),
+    "C19": dict(category="model_checking",
+        text="Same state graphs as C09: at every reachable state every rejected-request action (unknown atom/bond, self bond, bad element, "
+             "wrong reaction label, several/no centres, descriptor on unknown centre, delete atom_type) and every lookup about absent atoms "
+             "or bonds is fired; the spec demands an exception (any type) resp. raise-or-negative answer and an identical full projection. "
+             "Random histories inject ill-formed requests and are validated by TLC.",
+        design_ref="DESIGN.md 3.3, 6 (C19)", note=EDIT_NOTE, technique=EDIT_TECH + "; fault enumeration at every reachable state"),
+    "C10": dict(category="model_checking",
+        text="Two-slot machine: from every seed graph (all small MG/CRG graphs over 2-3 ids; star/chain skeletons with descriptors and "
+             "stereo changes) every derivation (copy, copy-constructor into each class, relabel copy, subgraph, compose, enantiomer, "
+             "reverse, reactant/product, JSON) is followed by every follow-up mutator on either side; TLC gives the expected state of both "
+             "slots and the untouched side must keep its projection. Random histories keep a pool of live objects and snapshot all of them "
+             "around every call.",
+        design_ref="DESIGN.md 3.3, 6 (C10)", note=EDIT_NOTE, technique=EDIT_TECH),
+    "C11": dict(category="model_checking",
+        text="Every injective partial renaming over the universe plus a fresh id (keys that are not atoms included) is applied in place and "
+             "into a copy from every seed state; results must equal Relabel(g,m) of the spec, the source of a copy must not move, and the "
+             "walk continues with follow-up queries, edits, == and hash on the relabelled graph. Random total/partial renamings on 10-30 "
+             "atom graphs are validated by TLC.",
+        design_ref="DESIGN.md 6 (C11)", note=EDIT_NOTE, technique=EDIT_TECH),
+    "C17": dict(category="model_checking",
+        text="For every seed graph of all four classes: subgraph for subsets given as list, set, tuple and one-shot iterator; "
+             "connected_components against the spec's reachability-based Components; compose of component subgraphs; compose of overlapping "
+             "pieces in both orders (later wins) and one further edit on the result; all compared with Subgraph/Compose of the spec. "
+             "Random covers on larger graphs validated by TLC.",
+        design_ref="DESIGN.md 6 (C17)", note=EDIT_NOTE, technique=EDIT_TECH),
+})
+
 PENDING_REASON = "check not built yet in this round; planned with the TLA+ technique as described in DESIGN.md section 6"
 
 
